@@ -497,3 +497,43 @@ func allocatingStringConv(cv *ssa.Convert) bool {
 	}
 	return false
 }
+
+// ruleEncStatic: the front-end reaches the encoder through the package-level variable `enc`. Its
+// type must be the concrete encoder struct of the build: with an interface type every enc.AppendX
+// becomes a dynamic call, escape analysis can no longer see that the appenders do not retain their
+// slice arguments, and a caller's stack-backed argument (`id[:]`, a slice literal) is moved to the
+// heap — one allocation per such field, also on a disabled logger.
+func ruleEncStatic(r *Run, p *Prog) {
+	g := p.Global("", "enc")
+	if !r.Anchor(g != nil, "A16", "package-level enc") {
+		return
+	}
+	t := derefType(g.Type())
+	_, isIface := t.Underlying().(*types.Interface)
+	_, isStruct := t.Underlying().(*types.Struct)
+	okc := !isIface && isStruct
+	r.Ob("A16", "enc/statically-dispatched", p.Pos(g.Pos()), okc, true, tern(okc, "enc has the concrete type "+types.TypeString(t, shortQual)+": every enc.AppendX is a static call", "enc is declared with the type "+types.TypeString(t, shortQual)+": calls through it are dynamic, so the slice arguments of the field methods escape and stack-backed arguments are heap-allocated at every call"))
+	// and no call through it is an interface invoke
+	n, dyn := 0, 0
+	for _, f := range p.ModFns {
+		if pkgRel(f) != "" {
+			continue
+		}
+		eachInstr(f, func(b *ssa.BasicBlock, i int, in ssa.Instruction) {
+			cc := callCommon(in)
+			if cc == nil {
+				return
+			}
+			if cc.IsInvoke() {
+				if loadedGlobal(cc.Value) == g {
+					dyn++
+				}
+				return
+			}
+			if len(cc.Args) > 0 && loadedGlobal(cc.Args[0]) == g {
+				n++
+			}
+		})
+	}
+	r.Ob("A16", "enc/call-sites", "-", dyn == 0 && n > 50, false, fmt.Sprintf("%d static call sites through enc, %d dynamic", n, dyn))
+}
